@@ -65,7 +65,7 @@ def run_c12(v):
     r2 = lib.tlc_mc("MC_Aggs.tla", _cfg("MC_Aggs_asbuilt_run.cfg", MC_AGGS.format(docs=3, asbuilt="TRUE", orders="FALSE", invs="INVARIANT AsBuiltExact")),
                     timeout=1800, coverage=False)
     lib.expect_mc_violation(r2, "MC_Aggs as-built (S12a)", {"AsBuiltExact"})
-    s = _drive(v, "layouts", {"C12"}, 8 if quick else 300, 12 if quick else 16)
+    s = _drive(v, "layouts", {"C12"}, 14 if quick else 300, 12 if quick else 16)
     v.coverage.update({
         "states": states, "transitions": trans,
         "traces_validated_against_impl": s["scenarios"], "requests_judged": s["requests"],
